@@ -266,6 +266,10 @@ def chk_equiv(ctx, t, patt, g):
 def cli_lexmin(text):
     from permuta import cli
 
+    if len(text) % 2:  # through the argument parser and the sub-command table
+        from ..cliutil import run_main
+
+        return run_main(["lexmin", text])[0].strip()
     buf = io.StringIO()
     with contextlib.redirect_stdout(buf):
         cli.get_lex_min(argparse.Namespace(basis=text))
